@@ -71,11 +71,54 @@ class MirrorRun:
             out.append(h)
         return out
 
+    def cover(self, steps, edge=False, crash=False, avoid=True, timeout=1500):
+        """Exhaustive TLC run exporting one behaviour per distinct state (edge=False) or per distinct
+        (state, event) pair (edge=True); returns the maximal behaviours, the TLC result and the number exported."""
+        res = self.tlc("Mirror_edgecover.cfg" if edge else "Mirror_cover.cfg", workers=8, timeout=timeout,
+                       defines={"MaxSteps": steps, "AvoidPanics": "TRUE" if avoid else "FALSE", "AllowCrash": "TRUE" if crash else "FALSE"})
+        behs = self.behaviours(res)
+
+        def key(b):
+            return json.dumps([(s["op"], s["args"], s["crashAt"]) for s in b], sort_keys=True)
+        pref = set()
+        for b in behs:
+            for i in range(1, len(b)):
+                pref.add(key(b[:i]))
+        return [b for b in behs if key(b) not in pref], res, len(behs)
+
     # ------------------------------------------------------------ replay
-    def replay(self, behs, batch=400, timeout_per_batch=900):
-        """Replays behaviours on the real Mirror; survives child deaths."""
+    def replay(self, behs, batch=400, timeout_per_batch=900, parallel=8):
+        """Replays behaviours on the real Mirror; survives child deaths.  Large sets are split over child processes."""
         if self.binary is None:
             self.build()
+        if len(behs) > 60 and parallel > 1:
+            from concurrent.futures import ThreadPoolExecutor
+            chunks = [c for c in (behs[i::parallel] for i in range(parallel)) if c]
+            subs = []
+            for c in chunks:
+                sub = MirrorRun.__new__(MirrorRun)
+                sub.__dict__.update(self.__dict__)
+                sub.records, sub.deaths, sub.inconclusive = [], [], []
+                sub.summary = {"behaviours": 0, "steps": 0, "mismatches": 0, "violations": 0, "ops": {}, "distinct_states": 0}
+                sub.dir = os.path.join(self.dir, "par-%d" % len(os.listdir(self.dir)))
+                os.makedirs(sub.dir)
+                subs.append(sub)
+            with ThreadPoolExecutor(len(chunks)) as ex:
+                list(ex.map(lambda sc: sc[0].replay(sc[1], batch, timeout_per_batch, parallel=1), zip(subs, chunks)))
+            for ci, sub in enumerate(subs):
+                for r in sub.records:
+                    if "beh" in r:
+                        r["beh"] = r["beh"] * parallel + ci
+                for d in sub.deaths:
+                    d["beh"] = d["beh"] * parallel + ci
+                self.records += sub.records
+                self.deaths += sub.deaths
+                for k in ("behaviours", "steps", "mismatches", "violations", "distinct_states"):
+                    self.summary[k] += sub.summary[k]
+                for k, v in sub.summary["ops"].items():
+                    self.summary["ops"][k] = self.summary["ops"].get(k, 0) + v
+            self.inconclusive = [r for r in self.records if r.get("kind") == "inconclusive"]
+            return self.records
         inp = os.path.join(self.dir, "beh-%d.ndjson" % len(os.listdir(self.dir)))
         with open(inp, "w") as f:
             for i, h in enumerate(behs):
@@ -121,7 +164,7 @@ class MirrorRun:
                                 "steps": behs[last["beh"]][: last["step"] + 1], "tail": o[-1500:]})
             self.summary["behaviours"] += (nxt - start) + 1
             start = max(nxt, last["beh"]) + 1
-        self.inconclusive += [r for r in self.records if r.get("kind") == "inconclusive"]
+        self.inconclusive = [r for r in self.records if r.get("kind") == "inconclusive"]
         return self.records
 
     def by_kind(self, kind):
